@@ -550,6 +550,10 @@ def _construct(cls, sysm):
             return "raised", [f"{type(e).__name__}: {e}"]
 
 
+def COVERS_STATIC():
+    return [c.__init__ for c in (be.BackwardEuler, ra.Rattle, mo.Moreau, dsv.DualStormerVerlet, sivp.ScipyIVP, sdae.ScipyDAE, st.Newton, st.Riks)] + [dsv.DualStormerVerlet._step]
+
+
 @static("C21", "unread-model-parts")
 def s_unread(tier):
     out = []
